@@ -116,6 +116,14 @@ def _enumerate(ctx):
         rng = np.random.default_rng(seed)
         prob = problems.rand_problem(rng)
         kw, d = problems.rand_config(rng, prob, allow=ALLOW)
+        if rng.random() < 0.15:
+            # documented option: more extra regression steps than there are interpolation points (a fault at one of those
+            # evaluations must not displace the incumbent, whose row is the one place an extra step may never use)
+            up = dict(kw.get("user_params") or {})
+            up["regression.num_extra_steps"] = int(kw.get("npt", prob["n"] + 1) + rng.integers(0, 3))
+            kw["user_params"] = up
+            d["user_params"] = up
+            d["extra_steps_ge_npt"] = up["regression.num_extra_steps"]
         kw["maxfun"] = min(kw["maxfun"], 40)
         d["maxfun"] = kw["maxfun"]
         np.random.seed((ctx.seed * 7919 + 808 + i) % (2 ** 32))
